@@ -592,6 +592,79 @@ static void build(vf::Plan &plan, const vf::Opts &o)
                    },
                    [hp](uint64_t i) { return strf("haystack %s needle nullptr", show((*hp)[i].raw).c_str()); });
     }
+    // ---- one-character needles in haystacks of 8 and more bytes made of the character, its neighbours in value (c^1, c+1, c^0x20,
+    // c^0x80) and a filler: word-at-a-time scanning loops decide by arithmetic on whole words, where a neighbour can look like a hit
+    if (!reduced) {
+        static const unsigned char CH[6] = {'b', '0', 0x00, 0x80, 'a', 0xA8};
+        const unsigned LMAX = T ? 10 : 9;
+        uint64_t per = 0;
+        for (unsigned L = 8; L <= LMAX; ++L) per += vf::ipow(4, L);
+        plan.stage(strf("one-character needle x haystacks {c, c^1, c^0x20, x}^8..%u and (c | c^0x80 | c+1) runs in haystacks of 11..24 bytes, 6 characters, every start / limit, both case modes", LMAX),
+                   (per + 14 * 24 * 8 * 3) * 6,
+                   [per, LMAX](uint64_t i, Ctx &c) {
+                       unsigned char ch = CH[vf::take(i, 6)];
+                       std::string h;
+                       if (i < per) {
+                           unsigned L = 8;
+                           uint64_t k = i;
+                           while (k >= vf::ipow(4, L)) k -= vf::ipow(4, L++);
+                           const unsigned char SY[4] = {ch, (unsigned char)(ch ^ 1), (unsigned char)(ch ^ 0x20), 'x'};
+                           for (unsigned j = 0; j < L; ++j, k /= 4) h += (char)SY[k % 4];
+                       } else {
+                           uint64_t k = i - per;
+                           unsigned nb = (unsigned)vf::take(k, 3), run = (unsigned)vf::take(k, 8), pos = (unsigned)vf::take(k, 24), L = 11 + (unsigned)k;
+                           h.assign(L, 'x');
+                           const unsigned char NB[3] = {(unsigned char)(ch ^ 1), (unsigned char)(ch ^ 0x80), (unsigned char)(ch + 1)};
+                           if (pos < L) h[pos] = (char)ch;
+                           for (unsigned j = 1; j <= run && pos + j < L; ++j) h[pos + j] = (char)NB[nb];
+                           if (pos >= 2) h[pos - 2] = (char)NB[nb];
+                       }
+                       ST::string s = mkst(h);
+                       const size_t n = h.size();
+                       vf::Outcome o = vf::guard([&] {
+                           for (int ci = 0; ci < 2; ++ci) {
+                               ST::case_sensitivity_t cs = ci ? ST::case_insensitive : ST::case_sensitive;
+                               auto eq = [&](unsigned char x) { return ci ? ref::fold_byte(x) == ref::fold_byte(ch) : x == ch; };
+                               for (size_t p = 0; p <= n + 1; ++p) {
+                                   long wf = -1, wl = -1;
+                                   for (size_t j = p; j < n; ++j)
+                                       if (eq((unsigned char)h[j])) {
+                                           wf = (long)j;
+                                           break;
+                                       }
+                                   for (size_t j = (p < n ? p : n); j-- > 0;)
+                                       if (eq((unsigned char)h[j])) {
+                                           wl = (long)j;
+                                           break;
+                                       }
+                                   long gf = OP(s.find(p, (char)ch, cs)), gl = OP(s.find_last(p, (char)ch, cs));
+                                   val();
+                                   if (gf != wf)
+                                       c.fail(strf("find(start,char):%s:%s:haystack-of-the-character-and-its-neighbours", ci ? "ci" : "cs", rescls(wf, gf)),
+                                              strf("haystack %s find(%zu, 0x%02X) = %ld, expected %ld", show(h).c_str(), p, ch, gf, wf));
+                                   if (gl != wl)
+                                       c.fail(strf("find_last(max,char):%s:%s:haystack-of-the-character-and-its-neighbours", ci ? "ci" : "cs", rescls(wl, gl)),
+                                              strf("haystack %s find_last(%zu, 0x%02X) = %ld, expected %ld", show(h).c_str(), p, ch, gl, wl));
+                               }
+                               long w0 = -1, w1 = -1;
+                               for (size_t j = 0; j < n; ++j)
+                                   if (eq((unsigned char)h[j])) {
+                                       if (w0 < 0) w0 = (long)j;
+                                       w1 = (long)j;
+                                   }
+                               long g0 = OP(s.find((char)ch, cs)), g1 = OP(s.find_last((char)ch, cs));
+                               bool gc = OP(s.contains((char)ch, cs));
+                               val();
+                               if (g0 != w0 || g1 != w1 || gc != (w0 >= 0))
+                                   c.fail(strf("find/find_last/contains(char):%s:haystack-of-the-character-and-its-neighbours", ci ? "ci" : "cs"),
+                                          strf("haystack %s character 0x%02X: find %ld (expected %ld), find_last %ld (expected %ld), contains %d", show(h).c_str(), ch, g0, w0, g1, w1, (int)gc));
+                           }
+                       });
+                       if (!o.ok()) c.fail(strf("one-character-needle:%s", vf::outkind_name(o.kind)), o.str());
+                       c.nontrivial();
+                   },
+                   [](uint64_t i) { return strf("one-character needle case %llu", (unsigned long long)i); });
+    }
     // ---- needles that point into the haystack's own storage (a window of its own c_str()): same answer as for a separate copy
     if (!reduced) {
         HPool hp = hays(T ? 5 : 4);
